@@ -145,3 +145,251 @@ Lemma branch_witness :
   | _ => false
   end = true.
 Proof. vm_compute. reflexivity. Qed.
+
+(* ================================================================== the table facts behind
+   asm_output_canonical, decided by vm_compute over the regenerated tables and lifted to all
+   (version, opcode, sub-opcode) *)
+From Verif.proofs Require Import AvmCodecAsmProofs.
+
+Definition indexed (l : list opspec) : list (N * opspec) :=
+  combine (map N.of_nat (seq 0 (List.length l))) l.
+
+Definition entry_triples (e : tentry) : list (N * N * opspec) :=
+  let '(o, (i, subs)) := e in
+  (match subs with [] => [(o, 0, pool_get i)] | _ => [] end)
+  ++ map (fun js => (o, fst js, snd js))
+         (filter (fun js : N * opspec => os_hasop (snd js) && negb (String.eqb (os_name (snd js)) ""))
+                 (indexed (map pool_get subs))).
+
+Definition triples (v : N) : list (N * N * opspec) := flat_map entry_triples (version_table v).
+
+Lemma indexed_in : forall l j, (j < List.length l)%nat -> In (N.of_nat j, nth j l zero_spec) (indexed l).
+Proof.
+  intros l j H. unfold indexed.
+  assert (E : nth j (combine (map N.of_nat (seq 0 (List.length l))) l) (0, zero_spec)
+              = (N.of_nat j, nth j l zero_spec)).
+  { rewrite combine_nth by (rewrite map_length, seq_length; reflexivity).
+    f_equal. change 0 with (N.of_nat 0%nat). rewrite map_nth. rewrite seq_nth by exact H. reflexivity. }
+  rewrite <- E. apply nth_In. rewrite combine_length, map_length, seq_length. lia.
+Qed.
+
+Lemma spec_at_in : forall v o s op,
+  spec_at gen_tbl v o s = Some op -> In (o, s, op) (triples v).
+Proof.
+  intros v o s op H. unfold spec_at, gen_tbl in H.
+  destruct (find (fun e : tentry => fst e =? o) (version_table v)) as [[o' [i subs]]|] eqn:F.
+  - apply find_some in F. destruct F as [Fin Feq]. cbn [fst] in Feq. apply N.eqb_eq in Feq. subst o'.
+    unfold triples. apply in_flat_map. exists (o, (i, subs)). split; [exact Fin|].
+    cbn [entry_triples]. apply in_or_app.
+    destruct (s =? 0) eqn:E0.
+    + apply N.eqb_eq in E0. subst s. left.
+      destruct subs as [|x r]; cbn [map] in H; try discriminate.
+      destruct (String.eqb (os_name (pool_get i)) ""); try discriminate.
+      inversion H; subst. left. reflexivity.
+    + right.
+      match type of H with (if ?c then _ else _) = _ => destruct c eqn:C end; try discriminate.
+      inversion H; subst op. apply andb_true_iff in C. destruct C as [C C3].
+      apply andb_true_iff in C. destruct C as [C C2]. apply Nat.ltb_lt in C.
+      apply in_map_iff. exists (s, nth (N.to_nat s) (map pool_get subs) zero_spec). split; [reflexivity|].
+      apply filter_In. split.
+      * rewrite <- (N2Nat.id s) at 1. apply indexed_in. exact C.
+      * cbn [snd]. rewrite C2, C3. reflexivity.
+  - destruct (s =? 0); [discriminate|]. simpl in H.
+    destruct (N.to_nat s); simpl in H; discriminate.
+Qed.
+
+Lemma versions_len : List.length ops_by_opcode = S (N.to_nat logic_version).
+Proof. vm_compute. reflexivity. Qed.
+
+Lemma version_in : forall v, v <= logic_version -> In v all_versions.
+Proof.
+  intros v H. unfold all_versions. apply in_map_iff. exists (N.to_nat v). split; [apply N2Nat.id|].
+  apply in_seq. lia.
+Qed.
+
+Lemma version_table_out : forall v, logic_version < v -> version_table v = [].
+Proof.
+  intros v H. unfold version_table. apply nth_overflow. rewrite versions_len. lia.
+Qed.
+
+Definition table_forall (P : N -> N -> N -> opspec -> bool) : bool :=
+  forallb (fun v => forallb (fun t : N * N * opspec => P v (fst (fst t)) (snd (fst t)) (snd t)) (triples v))
+          all_versions.
+
+Lemma table_lift : forall P, table_forall P = true ->
+  forall v o s op, spec_at gen_tbl v o s = Some op -> P v o s op = true.
+Proof.
+  intros P HP v o s op H. destruct (N.le_gt_cases v logic_version) as [Hv|Hv].
+  - unfold table_forall in HP. rewrite forallb_forall in HP. specialize (HP v (version_in v Hv)).
+    rewrite forallb_forall in HP. specialize (HP (o, s, op) (spec_at_in v o s op H)). exact HP.
+  - exfalso. pose proof (spec_at_in v o s op H) as Hin. unfold triples in Hin.
+    rewrite (version_table_out v Hv) in Hin. simpl in Hin. exact Hin.
+Qed.
+
+(* ---- the individual facts *)
+Definition cons_b (v o s : N) (op : opspec) : bool :=
+  (os_opcode op =? o) && (os_sub op =? s) && (o <? 256) && (s <? 256).
+Lemma cons_ok : table_forall cons_b = true.
+Proof. vm_compute. reflexivity. Qed.
+
+Definition nosub_b (v o s : N) (op : opspec) : bool :=
+  (s =? 0) || ((match os_imms op with [] => true | _ => false end) && negb (is_special (os_name op))).
+Lemma nosub_ok : table_forall nosub_b = true.
+Proof. vm_compute. reflexivity. Qed.
+
+Definition field_b (v o s : N) (op : opspec) : bool :=
+  forallb (fun im =>
+             (if im_kind im =? 0 then
+                let k' := gen_agrp (os_name op) (im_group im) in
+                if k' =? 0 then im_group im =? 0
+                else forallb (fun f => if fs_version f <=? v
+                                       then (fs_field f <? 256) && field_named gen_grp (im_group im) (fs_field f)
+                                       else true) (gen_grp k')
+              else true) &&
+             (if im_kind im =? 1 then im_group im =? 0 else true)) (os_imms op).
+Lemma field_ok_table : table_forall field_b = true.
+Proof. vm_compute. reflexivity. Qed.
+
+Definition kinds_are (op : opspec) (k : ikind) : bool :=
+  match map (fun im => kind_of (im_kind im)) (os_imms op), k with
+  | [KInts], KInts => true
+  | [KBytess], KBytess => true
+  | _, _ => false
+  end.
+Definition block_b (v o s : N) (op : opspec) : bool :=
+  (if String.eqb (os_name op) "intcblock" then kinds_are op KInts else true) &&
+  (if String.eqb (os_name op) "bytecblock" then kinds_are op KBytess else true).
+Lemma block_ok : table_forall block_b = true.
+Proof. vm_compute. reflexivity. Qed.
+
+Definition short_b (v o s : N) (op : opspec) : bool :=
+  if existsb (String.eqb (os_name op)) ["arg"; "intc"; "bytec"]%string then
+    forallb (fun n => let a := by_name gen_names v (short_name (os_name op) n) in
+                      c_wf_instr v (mkI (os_opcode a) (os_sub a) []) &&
+                      (String.eqb (os_name op) "arg" || (os_sub a =? 0))) [0; 1; 2; 3]
+  else true.
+Lemma short_ok : table_forall short_b = true.
+Proof. vm_compute. reflexivity. Qed.
+
+Definition bytes_4_255 : list N := map N.of_nat (seq 4 252).
+Definition long_b (v o s : N) (op : opspec) : bool :=
+  if existsb (String.eqb (os_name op)) ["intc"; "bytec"]%string then
+    forallb (fun n => c_wf_instr v (mkI (os_opcode (by_name gen_names v (os_name op))) 0 [VByte n])) bytes_4_255
+  else true.
+Lemma long_ok : table_forall long_b = true.
+Proof. vm_compute. reflexivity. Qed.
+
+Lemma gen_Hcons : forall v o s op, spec_at gen_tbl v o s = Some op ->
+  os_opcode op = o /\ os_sub op = s /\ o < 256 /\ s < 256.
+Proof.
+  intros v o s op H. pose proof (table_lift _ cons_ok v o s op H) as C. unfold cons_b in C.
+  repeat (apply andb_true_iff in C; destruct C as [C ?]).
+  apply N.eqb_eq in C. apply N.eqb_eq in H2. apply N.ltb_lt in H1. apply N.ltb_lt in H0. auto.
+Qed.
+
+Lemma gen_Hnosub : forall v o s op, spec_at gen_tbl v o s = Some op -> s <> 0 ->
+  os_imms op = [] /\ is_special (os_name op) = false.
+Proof.
+  intros v o s op H Hs. pose proof (table_lift _ nosub_ok v o s op H) as C. unfold nosub_b in C.
+  apply orb_true_iff in C. destruct C as [C|C]; [apply N.eqb_eq in C; contradiction|].
+  apply andb_true_iff in C. destruct C as [C1 C2]. apply negb_true_iff in C2.
+  destruct (os_imms op); [auto|discriminate].
+Qed.
+
+Lemma gen_Hfield : forall v o s op im b, spec_at gen_tbl v o s = Some op -> In im (os_imms op) ->
+  (im_kind im = 0 -> field_ok gen_grp v (gen_agrp (os_name op) (im_group im)) b = true ->
+   (b <? 256) && field_named gen_grp (im_group im) b = true) /\
+  (im_kind im = 1 -> im_group im = 0).
+Proof.
+  intros v o s op im b H Hin. pose proof (table_lift _ field_ok_table v o s op H) as C.
+  unfold field_b in C. rewrite forallb_forall in C. specialize (C im Hin).
+  apply andb_true_iff in C. destruct C as [C0 C1]. split.
+  - intros E0 Hf. rewrite E0 in C0. cbn [N.eqb] in C0. cbv zeta in C0.
+    unfold field_ok in Hf.
+    destruct (gen_agrp (os_name op) (im_group im) =? 0) eqn:Ek.
+    + apply N.eqb_eq in C0. rewrite C0. rewrite Hf. reflexivity.
+    + apply existsb_exists in Hf. destruct Hf as [f [Fin Ff]].
+      apply andb_true_iff in Ff. destruct Ff as [F1 F2]. apply N.eqb_eq in F1. subst b.
+      rewrite forallb_forall in C0. specialize (C0 f Fin). rewrite F2 in C0. exact C0.
+  - intros E1. rewrite E1 in C1. cbn [N.eqb Pos.eqb] in C1. apply N.eqb_eq in C1. exact C1.
+Qed.
+
+Lemma gen_Hblock : forall v o s op, spec_at gen_tbl v o s = Some op ->
+  (os_name op = "intcblock"%string -> map (fun im => kind_of (im_kind im)) (os_imms op) = [KInts]) /\
+  (os_name op = "bytecblock"%string -> map (fun im => kind_of (im_kind im)) (os_imms op) = [KBytess]).
+Proof.
+  intros v o s op H. pose proof (table_lift _ block_ok v o s op H) as C. unfold block_b in C.
+  apply andb_true_iff in C. destruct C as [C1 C2]. split; intros E; rewrite E in *.
+  - cbn in C1. unfold kinds_are in C1.
+    destruct (map (fun im => kind_of (im_kind im)) (os_imms op)) as [|[] [|? ?]]; try discriminate. reflexivity.
+  - cbn in C2. unfold kinds_are in C2.
+    destruct (map (fun im => kind_of (im_kind im)) (os_imms op)) as [|[] [|? ?]]; try discriminate. reflexivity.
+Qed.
+
+Lemma gen_Hshort : forall v o s op base n, spec_at gen_tbl v o s = Some op -> os_name op = base ->
+  In base ["arg"; "intc"; "bytec"]%string -> n < 4 ->
+  let a := by_name gen_names v (short_name base n) in
+  c_wf_instr v (mkI (os_opcode a) (os_sub a) []) = true /\ (base <> "arg"%string -> os_sub a = 0).
+Proof.
+  intros v o s op base n H Hn Hb Hlt. pose proof (table_lift _ short_ok v o s op H) as C.
+  unfold short_b in C. rewrite Hn in C.
+  assert (Hex : existsb (String.eqb base) ["arg"; "intc"; "bytec"]%string = true).
+  { apply existsb_exists. exists base. split; [exact Hb|apply String.eqb_refl]. }
+  rewrite Hex in C. rewrite forallb_forall in C.
+  assert (Hn4 : In n [0; 1; 2; 3]).
+  { assert (0 = n \/ 1 = n \/ 2 = n \/ 3 = n) by lia. simpl. tauto. }
+  specialize (C n Hn4). cbv zeta in C. apply andb_true_iff in C. destruct C as [C1 C2].
+  cbv zeta. split; [exact C1|]. intros Hna. apply orb_true_iff in C2. destruct C2 as [C2|C2].
+  - apply String.eqb_eq in C2. contradiction.
+  - apply N.eqb_eq in C2. exact C2.
+Qed.
+
+Lemma gen_Hlong : forall v o s op base n, spec_at gen_tbl v o s = Some op -> os_name op = base ->
+  In base ["intc"; "bytec"]%string -> 4 <= n -> n < 256 ->
+  c_wf_instr v (mkI (os_opcode (by_name gen_names v base)) 0 [VByte n]) = true.
+Proof.
+  intros v o s op base n H Hn Hb H4 H256. pose proof (table_lift _ long_ok v o s op H) as C.
+  unfold long_b in C. rewrite Hn in C.
+  assert (Hex : existsb (String.eqb base) ["intc"; "bytec"]%string = true).
+  { apply existsb_exists. exists base. split; [exact Hb|apply String.eqb_refl]. }
+  rewrite Hex in C. rewrite forallb_forall in C. apply C.
+  unfold bytes_4_255. apply in_map_iff. exists (N.to_nat n). split; [apply N2Nat.id|]. apply in_seq. lia.
+Qed.
+
+Lemma gen_Hlv : logic_version < 2 ^ 64.
+Proof. vm_compute. reflexivity. Qed.
+Lemma gen_Hmax : max_string_size < 2 ^ 64.
+Proof. vm_compute. reflexivity. Qed.
+
+(* Everything the assembler model accepts for the tables of the running code is the canonical
+   encoding of a well-formed program; hence the disassembler's decoder reads exactly these
+   instructions back, even in strict mode. *)
+Theorem asm_output_canonical_gen : forall v p labs b,
+  feasible p = true -> c_asm_base v p labs = AOk b ->
+  exists q, c_wf_prog v q = true /\ b = enc_prog v q /\ List.length q = List.length p.
+Proof.
+  exact (asm_output_canonical gen_tbl gen_grp gen_names gen_agrp max_string_size
+           back_branch_enabled_version logic_version gen_Hlv gen_Hmax gen_Hcons gen_Hnosub
+           gen_Hfield gen_Hblock gen_Hshort gen_Hlong).
+Qed.
+
+Theorem asm_output_decodes : forall v p labs b,
+  feasible p = true -> c_asm_base v p labs = AOk b ->
+  exists q, c_dec_prog true b = Some (v, q) /\ c_dec_prog false b = Some (v, q) /\
+            enc_prog v q = b /\ List.length q = List.length p.
+Proof.
+  intros v p labs b Hf H. destruct (asm_output_canonical_gen v p labs b Hf H) as [q [W [E L]]].
+  exists q. subst b. unfold c_dec_prog.
+  rewrite (prog_roundtrip gen_tbl gen_grp logic_version true v q W).
+  rewrite (prog_roundtrip gen_tbl gen_grp logic_version false v q W). auto.
+Qed.
+
+(* findBranchSizes never runs out of the fuel asm_base gives it *)
+Theorem asm_base_no_fuel : forall v p labs, c_asm_base v p labs <> AFuel.
+Proof.
+  intros v p labs. unfold c_asm_base, asm_base.
+  destruct (logic_version <? v); [discriminate|].
+  destruct (asm_pass1 _ _ _ _ _ v labs 0 _ p) as [ps|]; [|discriminate].
+  destruct (find_sizes_initial_total labs ps) as [r Hr]. rewrite Hr.
+  match goal with |- (match ?x with _ => _ end) <> _ => destruct x end; discriminate.
+Qed.
